@@ -55,7 +55,7 @@ type Node struct {
 type Handled struct {
 	Src, Dst netip.Addr
 	Type     frame.MessageType
-	Err      error    // panic of the worker (mgr.ErrWorkerPanic) or driver-level failure
+	Err      error // panic of the worker (mgr.ErrWorkerPanic) or driver-level failure
 	Panic    bool
 	Logs     []string // what the real worker logged for this frame ("failed to handle frame: <err>" ...)
 }
@@ -289,7 +289,9 @@ func (l *VLink) BytesIn() uint64 { return 0 }
 func (l *VLink) BytesOut() uint64 { return 0 }
 
 // FlowControlIndicator returns "increase".
-func (l *VLink) FlowControlIndicator() frame.FlowControlFlag { return frame.FlowControlFlagIncreaseFlow }
+func (l *VLink) FlowControlIndicator() frame.FlowControlFlag {
+	return frame.FlowControlFlagIncreaseFlow
+}
 
 // IsClosing returns whether the link was closed.
 func (l *VLink) IsClosing() bool { return l.closing }
